@@ -211,6 +211,13 @@ func vRunCase(p *vProp, prop, tier string, seed int64, idx int) {
 	c.mu.Unlock()
 	vWriteLine(vResults, res)
 	vWriteLine(vJournal, map[string]any{"ev": "end", "idx": idx})
+	// A case that left goroutines of the system under test wedged or leaked has contaminated this process
+	// (later goroutine censuses and wait-state analyses would see its leftovers): let the driver start a fresh one.
+	if res.Kind == "violation" && (strings.HasPrefix(res.Sig, "hang:") || strings.Contains(res.Sig, "goroutine-leak") || strings.Contains(res.Sig, "data-stalled") || strings.Contains(res.Sig, "core-loop-gone")) && os.Getenv("VERIF_ONLY") == "" {
+		vJournal.Sync()
+		vResults.Sync()
+		os.Exit(77)
+	}
 }
 
 func vTrim(s string, n int) string {
